@@ -934,6 +934,9 @@ class Interp:
             ret = s2.frames[fid].get(0)
             if ret is None:
                 ret = self.zst_or_fresh(s2, inst.locals[0])
+            if fr.memo_pos is not None:
+                from . import mm
+                mm.on_memo_return(self, fr, s2, ret)
             del s2.frames[fid]
             out.append((s2, ret))
         return out
@@ -967,7 +970,7 @@ class Interp:
         for b, s in entries:
             route(b, s)
         while pending:
-            if self.deadline and time.time() > self.deadline:
+            if self.deadline and time.process_time() > self.deadline:
                 raise Unsupported('time budget exceeded')
             b = min(pending, key=lambda x: fr.rpo_idx.get(x, 1 << 30))
             states = pending.pop(b)
